@@ -1,8 +1,9 @@
 ------------------------------- MODULE MC_Url -------------------------------
-(* Exhaustive configuration + emission for Url (C14).  The input domain is   *)
-(*   Pfx \o w,  w over the alphabet, Len(w) <= N                              *)
+(* Exhaustive configurations + emission for Url (C14 and C15).                *)
+(* C14: the input domain is   Pfx \o w,  w over the alphabet, Len(w) <= N     *)
 (* partitioned into shards by the first one or two symbols of w, so that the  *)
 (* shards together visit every string exactly once (stage 1 = union).         *)
+(* C15 (second half): the domain is the set of URL shapes MCWireSeeds.        *)
 EXTENDS Url, Json
 
 CONSTANTS PrefixId,    \* 0: none, 1: "http://", 2: "https://", 3: "HTTP://a@", 4: "hTTps://B:1@"
